@@ -1,6 +1,9 @@
-(* C12 — Mailbox = bounded, lossless MPSC FIFO.  Sequential part proved in
-   full; the concurrent part is partial (see MANIFEST level note). *)
+(* C12 — Mailbox = bounded, lossless MPSC FIFO.
+   Part 1: operation sequences (one operation at a time): the stamped ring buffer refines a
+   bounded FIFO (Model/Queue.v).  Part 2: any number of producers, the consumer and a closer
+   interleaved at the granularity of single shared-memory accesses (Model/QueueConc.v). *)
 Require Import NX.Base.Prelude NX.Base.ListX NX.Model.Queue NX.Proofs.QueueProofs.
+Require Import NX.Model.QueueConc NX.Proofs.QueueConcInv NX.Proofs.QueueConcSteps NX.Proofs.QueueConcProofs.
 
 (* For every capacity >= 1 and every sequence of push / pop / pop-and-hold /
    release / close / len / is_closed, the stamped ring buffer of queue.rs
@@ -29,4 +32,85 @@ Example c12_nonvacuous :
   = [QRPush PushOk; QRPush PushOk; QRPush PushFull; QRLen 2; QRPop (PopVal 1); QRLen 1; QRPop (PopVal 2);
      QRPush PushOk; QRPush PushFull; QRRel true; QRPush PushOk; QRPop (PopVal 3); QRPop (PopVal 4);
      QRPop PopEmpty; QRUnit; QRPush PushClosed; QRPop PopClosed; QRBool true]%Z.
+Proof. vm_compute. reflexivity. Qed.
+
+
+(* ------------------------------------------------------------------------------------------
+   Part 2 - concurrent.  For every capacity >= 1, any number of producers with any lists of
+   messages, any number of pop attempts, a close() at any moment, every interleaving of the
+   individual atomic accesses and every spurious failure of compare_exchange_weak: the invariant
+   CInv holds in every reachable state. *)
+Theorem c12_conc_invariant :
+  forall (V : Type) capacity (pv : list (list V)) npops sched,
+    1 <= capacity -> CInv V (cq_run (cq_init capacity pv npops) sched).
+Proof. exact cq_reachable_inv. Qed.
+Print Assumptions c12_conc_invariant.
+
+Theorem c12_conc_step :
+  forall (V : Type) (s s' : cstate V) t b, CInv V s -> cq_step s t b = Some s' -> CInv V s'.
+Proof. exact cq_step_inv. Qed.
+Print Assumptions c12_conc_step.
+
+(* lossless FIFO, exactly once: what the consumer has received is a prefix of the accepted
+   messages in the order of acceptance (the order of the successful compare-exchanges) *)
+Theorem c12_conc_fifo :
+  forall (V : Type) (s : cstate V), CInv V s -> exists k, k <= length (log s) /\ popped s = firstn k (log s).
+Proof. exact cq_fifo. Qed.
+Print Assumptions c12_conc_fifo.
+
+(* bounded: accepted and not yet handed back <= capacity *)
+Theorem c12_conc_bounded :
+  forall (V : Type) (s : cstate V), CInv V s -> enq s - rel V s <= cap s /\ rel V s <= deq s <= enq s.
+Proof. exact cq_bounded. Qed.
+Print Assumptions c12_conc_bounded.
+
+(* per producer: its accepted messages occupy strictly increasing positions of the log, i.e. they
+   are delivered in the order in which it sent them *)
+Theorem c12_conc_producer_order :
+  forall (V : Type) (s : cstate V) i p,
+    CInv V s -> nth_error (prods s) i = Some p ->
+    sdesc (map fst (ptix p)) /\ forall n v, In (n, v) (ptix p) -> nth_error (log s) n = Some v.
+Proof. exact cq_producer_order. Qed.
+Print Assumptions c12_conc_producer_order.
+
+(* the unreachable!() arms and the debug assertion of queue.rs are never reached: no two parties
+   ever access the same cell at once *)
+Theorem c12_conc_no_unreachable : forall (V : Type) (s : cstate V), CInv V s -> cerr s = 0.
+Proof. exact cq_no_unreachable. Qed.
+Print Assumptions c12_conc_no_unreachable.
+
+(* len() = number of messages held, whenever no operation is in flight *)
+Theorem c12_conc_len :
+  forall (V : Type) (s : cstate V),
+    CInv V s -> quiescent s -> cq_len s = length (log s) - length (popped s) /\ cq_len s <= cap s.
+Proof. exact cq_len_quiescent. Qed.
+Print Assumptions c12_conc_len.
+
+(* after close() no message is accepted any more ... *)
+Theorem c12_conc_closed_no_accept :
+  forall (V : Type) (s s' : cstate V) t b,
+    closed s = true -> cq_step s t b = Some s' -> log s' = log s /\ closed s' = true.
+Proof. exact cq_closed_no_accept. Qed.
+Print Assumptions c12_conc_closed_no_accept.
+
+(* ... while the messages already accepted remain receivable: Closed is reported to the consumer
+   only when every accepted message has been delivered *)
+Theorem c12_conc_closed_only_when_drained :
+  forall (V : Type) (s s' : cstate V),
+    CInv V s -> cons_step s = Some s' -> cout (con s') = CrClosed :: cout (con s) ->
+    closed s = true /\ popped s = log s.
+Proof. exact cq_closed_only_when_drained. Qed.
+Print Assumptions c12_conc_closed_only_when_drained.
+
+(* non-vacuity: two producers race for a queue of capacity 2 (one compare-exchange fails
+   spuriously), one push is refused (Full), close() arrives, the consumer drains and is told Closed *)
+Definition c12_sched : list (nat * bool) :=
+  [(2, false); (3, false); (2, false); (3, false); (2, true); (3, false); (3, false); (3, false); (2, false);
+   (2, false); (2, false); (2, false); (0, false); (0, false); (0, false); (0, false); (2, false); (2, false);
+   (2, false); (2, false); (1, false); (0, false); (0, false); (2, false); (2, false); (0, false); (0, false);
+   (0, false); (0, false); (0, false); (0, false); (0, false); (0, false); (0, false); (0, false); (0, false)].
+Example c12_conc_nonvacuous :
+  let s := cq_run (cq_init 2 [[1; 2; 3]; [7]]%Z 4) c12_sched in
+  (log s, popped s, map (fun p => rev (pout p)) (prods s), rev (cout (con s)), cerr s) =
+  ([7; 1]%Z, [7; 1]%Z, [[PrOk; PrFull]; [PrOk]], [CrVal 7; CrVal 1; CrClosed]%Z, 0).
 Proof. vm_compute. reflexivity. Qed.
